@@ -54,6 +54,24 @@ type caseIn struct {
 	Writers  int     `json:"writers,omitempty"` // >0: concurrent mode
 	RT       *rtIn   `json:"rt,omitempty"`      // real-time interval case (rt.go); everything above is unused then
 	StoreFail []int  `json:"store_fail,omitempty"` // the k-th call of sentStorage.Store (1-based) returns an error, once each
+	// ElMode: how the ElapsedTime of successive points is drawn (the library must keep WRITE order per
+	// data id whatever the elapsed times are): 0 strictly increasing (1,2,3,...), 1 random in -4..19
+	// (duplicates, negative values, ups and downs), 2 strictly decreasing, 3 sawtooth 30,10,20,7,3,5,5 (+40 per round)
+	ElMode int `json:"elmode,omitempty"`
+}
+
+// elOf is the ElapsedTime of the n-th point (n from 1) of a case under the case's ElMode.
+func elOf(mode int, n uint64, r *rng.R) int64 {
+	switch mode {
+	case 1:
+		return int64(r.Intn(24)) - 4
+	case 2:
+		return 1_000_000 - int64(n)
+	case 3:
+		k := n - 1
+		return []int64{30, 10, 20, 7, 3, 5, 5}[k%7] + 40*int64(k/7)
+	}
+	return int64(n)
 }
 
 // ---------------------------------------------------------------- flush policy and storage wrappers
@@ -623,7 +641,7 @@ func runCase(c *caseIn, r *rng.R) (res result) {
 					el.Lock()
 					for j := 0; j < np; j++ {
 						elapsed++
-						p := &message.DataPoint{ElapsedTime: time.Duration(elapsed), Payload: rr.Bytes(rr.Intn(6))}
+						p := &message.DataPoint{ElapsedTime: time.Duration(elOf(c.ElMode, elapsed, rr)), Payload: rr.Bytes(rr.Intn(6))}
 						dps = append(dps, p)
 						pts = append(pts, ptOf(p))
 					}
@@ -716,7 +734,7 @@ func runCase(c *caseIn, r *rng.R) (res result) {
 			start := len(backing)
 			for _, ln := range op.Lens {
 				elapsed++
-				p := &message.DataPoint{ElapsedTime: time.Duration(elapsed), Payload: r.Bytes(ln)}
+				p := &message.DataPoint{ElapsedTime: time.Duration(elOf(c.ElMode, elapsed, r)), Payload: r.Bytes(ln)}
 				backing = append(backing, p)
 				pts = append(pts, ptOf(p))
 			}
@@ -964,6 +982,7 @@ func genCase(r *rng.R) *caseIn {
 			}
 		}
 	}
+	c.ElMode = []int{0, 1, 1, 2, 3, 3}[r.Intn(6)]
 	nops := 3 + r.Intn(14)
 	ackStyle := r.Intn(4) // 0 none until close, 1 eager, 2 batched/reordered, 3 with duplicates and failures
 	for i := 0; i < nops; i++ {
@@ -1030,11 +1049,12 @@ func genCase(r *rng.R) *caseIn {
 
 func genConcurrent(r *rng.R) *caseIn {
 	return &caseIn{Policy: []string{"interval", "size", "intervalorsize", "immediate"}[r.Intn(4)], Thresh: []int{4, 12, 40}[r.Intn(3)],
-		QoS: r.Intn(3), Writers: 2 + r.Intn(3)}
+		QoS: r.Intn(3), Writers: 2 + r.Intn(3), ElMode: r.Intn(4)}
 }
 
 // all op sequences of length n over a small alphabet, per policy
 func genExhaustive(n int, add func(*caseIn, string)) {
+	exCount := 0
 	alpha := []opIn{
 		{Op: "write", ID: 1, Lens: []int{3}},
 		{Op: "write", ID: 2, Lens: []int{0, 6}},
@@ -1049,7 +1069,8 @@ func genExhaustive(n int, add func(*caseIn, string)) {
 		}
 		idx := make([]int, n)
 		for {
-			c := &caseIn{Policy: pol, Thresh: 4, QoS: 1}
+			c := &caseIn{Policy: pol, Thresh: 4, QoS: 1, ElMode: exCount % 4}
+			exCount++
 			for _, i := range idx {
 				c.Ops = append(c.Ops, a[i])
 			}
@@ -1313,7 +1334,7 @@ func main() {
 		w.Count("policy:" + jobs[i].c.Policy)
 		w.Count(fmt.Sprintf("ops:%d", len(jobs[i].c.Ops)/4*4))
 	}
-	rule := "exhaustive: every op sequence of fixed length over {write id1, write id2 (0-byte and 6-byte point), zero-point write, flush, ack oldest outstanding + alias, tick} per policy, then close; random: 3-16 ops over 1-5 data ids, 0-3 points per write with payload lengths straddling the size threshold, policies none/interval/size/interval-or-size/immediate, QoS x3, ack styles none/eager/reordered/duplicated+failure codes, aliases handed out in the open response and mid-stream, ops after close. non-trivial = >=2 chunks, >=2 data ids and at least one group transmitted in alias form; distinct = distinct Coq case terms"
+	rule := "exhaustive: every op sequence of fixed length over {write id1, write id2 (0-byte and 6-byte point), zero-point write, flush, ack oldest outstanding + alias, tick} per policy, then close; random: 3-16 ops over 1-5 data ids, 0-3 points per write with payload lengths straddling the size threshold, policies none/interval/size/interval-or-size/immediate, QoS x3, ack styles none/eager/reordered/duplicated+failure codes, aliases handed out in the open response and mid-stream, ops after close; elapsed times of successive points increasing, random with duplicates and negative values, decreasing or sawtooth (ElMode), so per-data-id WRITE order differs from elapsed-time order in about 2/3 of the cases. non-trivial = >=2 chunks, >=2 data ids and at least one group transmitted in alias form; distinct = distinct Coq case terms"
 	rule += "; storefail: the same histories with the k-th sentStorage.Store call (k in 1..5, one or two of them) returning an error once, followed by more writes, Flush and Close, every policy; backlog: 4200-9000 zero/one-byte points buffered without a cut under none, size (threshold never exceeded), interval-only between ticks, as one huge write, 110-150 writes of 40-50 points, or two huge writes to two ids"
 	rule += "; rt-interval (real clock, no policy wrapper): 1-3 streams on one connection opened with no flush-policy option (the library's shared default object, 100 ms / 10000 B), IntervalOnly(d) or IntervalOrBufferSize(d,64), d in {20,50} ms, private or one shared policy object; a neighbour cuts by size every 2-5 ms, is closed, or all streams resume after a link cut; 2 small writes per stream under test at random phases; each must reach the broker within interval+slack ms (a miss is re-run alone 3 times); non-trivial = >=2 streams with a neighbour action and no miss"
 	extra := map[string]interface{}{"rt_wall_ms": rtWall.Milliseconds(), "rt_first_pass_misses_retried": rtRetried}
